@@ -467,10 +467,17 @@ def check_primitives(prog):
         probs.append(Problem("L1", "decodeString", "body-slice", "the string body is taken from [%s:%s], must be [2:2+length]" % (U(bs.lower) if bs.lower else "", U(bs.upper) if bs.upper else ""), rets[0]))
     if rl != (2, True) or rs_.upper is not None:
         probs.append(Problem("L1", "decodeString", "rest-slice", "the remaining bytes start at %s, must start at 2+length (complement of the body)" % U(rs_.lower), rets[0]))
-    encs = [a for a in list(dec_call.args) + [k.value for k in dec_call.keywords]]
-    ok, e0 = r.fold(encs[0]) if encs else (True, "utf-8")
+    enc_node = dec_call.args[0] if dec_call.args else next((k.value for k in dec_call.keywords if k.arg == "encoding"), None)
+    err_node = dec_call.args[1] if len(dec_call.args) > 1 else next((k.value for k in dec_call.keywords if k.arg == "errors"), None)
+    ok, e0 = r.fold(enc_node) if enc_node is not None else (True, "utf-8")
     if not (isinstance(e0, str) and e0.lower().replace("_", "-") in ("utf-8", "utf8")):
         probs.append(Problem("L1", "decodeString", "encoding", "strings are decoded as %r, must be UTF-8" % (e0,), rets[0]))
+    # strict decoding: bytes that are not UTF-8 must fault (the client then aborts the connection), not turn into other text
+    if err_node is not None:
+        okv, ev = r.fold(err_node)
+        if not (okv and ev == "strict"):
+            # a fact for C16 only: valid strings decode alike in every mode, so the round trip and the wire format are untouched
+            facts["string_errors"] = (ev if okv else U(err_node), dec_call)
     # ---- encodeLength / decodeLength ----
     r = Roles(prog, mod, mod.funcs["encodeLength"])
     mods = [v for v, n in r.consts(ast.Mod)]
